@@ -408,6 +408,45 @@ func genExemptCase(r *prng.R, id string) proto.Case {
 	return proto.Case{ID: id, Ops: ops}
 }
 
+// Nested wildcards at depths d1 < d2 with a parameter before d1 and another between d1 and d2 (also the
+// host-parameter shape), requests ending at, one below and several below the deeper wildcard: the parameters
+// reported with a wildcard match must be those collected up to THAT wildcard.
+func genNestedWildcardCase(r *prng.R, id string) proto.Case {
+	type shape struct{ outer, inner string }
+	sh := prng.Pick(r, []shape{
+		{"acme.com/{tenant}/*", "acme.com/{tenant}/{project}/*"},
+		{"acme.com/{tenant}/*", "acme.com/{tenant}/x/{project}/*"},
+		{"{region}.acme.com/*", "{region}.acme.com/jobs/{job}/*"},
+		{"a.com/{p}/*", "a.com/{p}/b/{q}/c/*"},
+		{"a.com/x/{p}/*", "a.com/x/{p}/{q}/*"},
+	})
+	inst := func(p string) string { return instantiate(r, strings.TrimSuffix(p, "/*"), false) }
+	deep := inst(sh.inner)
+	ops := []string{
+		fmt.Sprintf("ep GET %s r=out:1:1 d=-", proto.Enc(sh.outer)),
+		fmt.Sprintf("ep GET %s r=in:2:1 d=%s", proto.Enc(sh.inner), genDiags(r, "in")),
+	}
+	if r.Chance(30) { // a third, deeper or sibling pattern
+		ops = append(ops, fmt.Sprintf("ep GET %s r=t:3:1 d=-", proto.Enc(derivePattern(r, sh.inner))))
+	}
+	n := len(ops)
+	reqs := []string{
+		"req GET " + proto.Enc(deep),                    // ends AT the deeper wildcard (zero segments)
+		"req GET " + proto.Enc(deep+"/"+prng.Pick(r, values[:6])), // one below
+		"req GET " + proto.Enc(deep+"/builds/7/log"),    // several below
+		"req GET " + proto.Enc(inst(sh.outer)+"/"+prng.Pick(r, values[:6])), // only the outer wildcard matches
+		"req POST " + proto.Enc(deep+"/z"),
+	}
+	for _, o := range allPerms(n) {
+		ops = append(ops, "build perm="+permStr(o))
+		ops = append(ops, reqs...)
+	}
+	// the same shapes on the raw trie
+	ops = append(ops, "t.ins d "+proto.Enc(sh.outer)+" 1", "t.ins d "+proto.Enc(sh.inner)+" 2",
+		"t.look "+proto.Enc(deep+"/builds/7"), "t.look "+proto.Enc(deep))
+	return proto.Case{ID: id, Ops: ops}
+}
+
 // ---- L1 cases ---------------------------------------------------------------------------------
 
 func genTrieCase(r *prng.R, id string) proto.Case {
@@ -519,6 +558,8 @@ func gen(r *prng.R, f proto.Flags, emit func(proto.Case)) {
 			emit(genCaseVariantCase(rr, fmt.Sprintf("c%d", k)))
 		case k%25 == 8:
 			emit(genExemptCase(rr, fmt.Sprintf("e%d", k)))
+		case k%25 == 9:
+			emit(genNestedWildcardCase(rr, fmt.Sprintf("w%d", k)))
 		case k%3 == 0:
 			emit(genTrieCase(rr, fmt.Sprintf("t%d", k)))
 		default:
